@@ -69,6 +69,30 @@ def single_op_model(rng, opname):
   return None
 
 
+def chained_model(rng, opname):
+  """TANH -> op: the operator reads a tensor whose statistics are OVERRIDDEN at
+  materialisation (tanh's output is pinned to the kernel's fixed range, far from
+  the observed one on small inputs).  An operator whose integer kernel relies on
+  a relation between its operands' parameters (same scale, ...) is only sound
+  if the quantizer establishes that relation from the overridden statistics."""
+  kind = GEN_NAME.get(opname, opname)
+  if opname in ('INPUT', 'OUTPUT', 'TANH'):
+    return None
+  want = getattr(gg.B, kind)
+  for attempt in range(24):
+    mb = gg.ModelBuilder(rng, name_style=0)
+    gg.gen_subgraph(mb, 0, 'serving_default', 2, op_weights=['TANH', kind], want4d=(attempt % 2 == 0))
+    m = mb.m
+    ops = m.subgraphs[0].operators
+    if len(ops) != 2:
+      continue
+    codes = [m.operatorCodes[o.opcodeIndex].builtinCode for o in ops]
+    if codes[0] != gg.B.TANH or codes[1] != want or int(ops[0].outputs[0]) not in [int(x) for x in ops[1].inputs]:
+      continue
+    return mb.finish()
+  return None
+
+
 def main():
   gg.CONST_KINDS = ['normal'] * 6 + ['pos', 'neg']     # well-conditioned constants (see oracle_c07)
   out_path = sys.argv[1]
@@ -93,17 +117,26 @@ def main():
   reps = 6 if tier == 'thorough' else 2
   models = {}
   for (alg, opn, mode, wsym, gran), cfg in accepted.items():
-    for rep in range(reps):
+    # static modes get one more model: the operator behind a TANH quantized with the same config
+    for rep in list(range(reps)) + (['ctx'] if mode.startswith('static') else []):
       if (opn, rep) not in models:
-        models[(opn, rep)] = single_op_model(rng, opn)
+        models[(opn, rep)] = chained_model(rng, opn) if rep == 'ctx' else single_op_model(rng, opn)
       mb = models[(opn, rep)]
       if mb is None:
-        dist['no_model_for:' + opn] += 1
+        dist[('no_context_model_for:' if rep == 'ctx' else 'no_model_for:') + opn] += 1
         continue
       dist['pairs'] += 1
       inp = {'algorithm': alg, 'op': opn, 'mode': mode, 'weight_symmetric': wsym, 'granularity': gran,
              'model_hex': mb.hex() if len(mb) < 30000 else None}
       qt = quantizer.Quantizer(bytearray(mb))
+      if rep == 'ctx':
+        try:
+          qt.update_quantization_recipe('.*', 'TANH', copy.deepcopy(cfg), alg)
+          inp['context'] = 'TANH (same config) feeds the operator; inputs of magnitude 0.1'
+          dist['pairs_behind_pinned_tanh'] += 1
+        except Exception:  # pylint: disable=broad-except
+          dist['pairs'] -= 1
+          continue                 # the config is not accepted for TANH: no such context
       try:
         qt.update_quantization_recipe('.*', opn, copy.deepcopy(cfg), alg)
       except Exception as e:  # pylint: disable=broad-except
@@ -111,7 +144,7 @@ def main():
                      f'check_op_quantization_config accepts but update_quantization_recipe raises '
                      f'{type(e).__name__}: {str(e)[:120]}', 'input': inp})
         continue
-      data = gg.random_inputs(mb, rng, 1)
+      data = gg.random_inputs(mb, rng, 1, scale=0.1 if rep == 'ctx' else 1.0)
       try:
         stats = None
         if qt.need_calibration:
